@@ -111,4 +111,14 @@ theorem C04_passed_preconditions_leave_no_trace (q : Req) (e : Ent) (now : Nat) 
       = .ok r :=
   passed_preconditions_leave_no_trace q e now r h hs
 
+/-- Non-vacuity of `C04_passed_preconditions_leave_no_trace`: `If-Match: *`, a stale If-Range tag
+and `Range: bytes=1-2` on a 10-byte entity with ETag `"a"` pass the preconditions (status 200, not
+304/400/412). -/
+example :
+    ∃ r, serve { method := .get, range := some [98, 121, 116, 101, 115, 61, 49, 45, 50],
+                 ifRange := some [34, 98, 34], ifMatch := some [42] }
+               { len := 10, etag := some [34, 97, 34] } 0 = .ok r ∧
+      r.status = 200 ∧ r.status ∉ [304, 400, 412] := by
+  refine ⟨_, rfl, ?_, ?_⟩ <;> decide
+
 end HS
